@@ -250,6 +250,23 @@ def generation (step : List Row → List Row) (anchor : List Row) : Nat → List
 def generationsUpTo (step : List Row → List Row) (anchor : List Row) (k : Nat) : List Row :=
   ((List.range (k + 1)).map (generation step anchor)).flatten
 
+/-! ## LATERAL (`loadView`, parser.Join with a LATERAL right side)
+
+  For every left record the sub-select is evaluated with that record in scope and joined to the one-row
+  view holding the record (`joinViews`); `app l` = (header width of that join, its records).  The result
+  header is assigned inside the per-record callback, only `if rIdx == 0` — with an empty left table the
+  callback never runs and the header stays empty (width 0).  The records are put together in left order. -/
+
+def lateralImpl (L : List Row) (app : Row → Nat × List Row) : Nat × List Row :=
+  ((match L with
+    | [] => 0
+    | l :: _ => (app l).1),
+   (L.map (fun l => (app l).2)).flatten)
+
+/-- per-left-row application; the header is that of (left ++ sub-select) whatever the left table holds -/
+def lateralSpec (w : Nat) (L : List Row) (app : Row → Nat × List Row) : Nat × List Row :=
+  (w, L.flatMap (fun l => (app l).2))
+
 /-! ## concrete condition language (correspondence driver only)
 
   Column references by (side, index): side 0 = the only / the left source, side 1 = the right source of
